@@ -7,7 +7,7 @@
    TSD ops 1 set k v | 2 erase k | 3 clear | 4 reserve c | 5 touch | 6 create k (at(k), child untouched) | 7 write k v through the element's own view
    TSW ops 1 push v | 3 clear
    TSB/TSL ops 1 set i v *)
-Require Import Base Coll Window Fixed.
+Require Import Base Coll Window DWindow Fixed.
 
 Fixpoint triples (l : list Z) : list (Z * Z * Z) :=
   match l with
@@ -154,6 +154,27 @@ Fixpoint win_cycles (cs : list (Z * list (Z * Z * Z))) (w : win) : wire :=
   end.
 
 
+(* ---- duration TSW: same lines as the tick window (capacity / full / min_period print as 0) *)
+Definition dwin_obs (t : Z) (w : dwin) : wire :=
+  let cur := dw_lmt w =? t in
+  let hr := dw_has_removed t w in
+  [ [20; t; b2z (dw_modified t w); b2z (dw_valid w); b2z (dw_valid w && dw_all_valid w); dw_lmt w; zn (dw_size w); 0; 0; 0;
+     b2z hr; (if hr then match dw_ev w with Some x => x | None => 0 end else 0);
+     b2z (dw_cleared t w); (match dw_times w with x :: _ => x | [] => 0 end)];
+    21 :: dw_values w;
+    22 :: dw_times w;
+    28 :: dw_values w;
+    29 :: (if cur then match rev (dw_values w) with x :: _ => [1; x] | [] => [0] end else [0]);
+    [37; b2z (dw_modified t w)] ].
+
+Fixpoint dwin_cycles (cs : list (Z * list (Z * Z * Z))) (w : dwin) : wire :=
+  match cs with
+  | [] => []
+  | (t, ops) :: r =>
+      let '(res, st) := run_ops (dwin_op t) (map dec_wop ops) (false, w) in
+      ((19 :: res) :: dwin_obs t (snd st)) ++ dwin_cycles r (snd st)
+  end.
+
 (* ---- TSB / TSL of TS<int> children *)
 Definition dec_fop (x : Z * Z * Z) : fop :=
   let '(c, a, b) := x in
@@ -188,6 +209,7 @@ Definition run_coll (c : wire) : wire :=
       else if k =? 3 then
         if p1 <=? 0 then [[18; 1]] else win_cycles cs (win_empty (Z.to_nat p1) (Z.to_nat p2))
       else if (k =? 7) || (k =? 8) then fixed_cycles cs (fixed_empty 3)
+      else if k =? 9 then dwin_cycles cs (dwin_empty p1 p2)
       else [[18; 2]]
   | _ => [[18; 2]]
   end.
